@@ -1260,6 +1260,12 @@ def replay(path):
     if not isinstance(inp, dict) or not isinstance(det, dict) or "expected" not in det:
         print(json.dumps(d, indent=1)[:4000])
         return 1
+    if "history" in inp:  # a directed history of analysis_before_first_call: re-enact all of them, look for this one
+        chk = Check("C16", "replay")
+        analysis_before_first_call(chk, "quick")
+        hit = [f for f in chk.failures if f["input"] == inp]
+        print(json.dumps(hit[0] if hit else {"the recorded history": "does not fail on this tree"}, indent=1, default=str)[:1500])
+        return 1 if hit else 0
     if "sources" in inp:
         values = [(eval(v), "") for v in inp["values"]]  # noqa: S307  reprs of literals written by this check
         out = dict(execute({"sources": inp["sources"], "main": inp["main"]}, values))
